@@ -72,6 +72,17 @@ structure Env where
 /-- `sf_callback_index in self._callback_handler` -/
 def hasCallback (env : Env) (s f : Nat) : Bool := env.user.contains (s, f) || env.builtin.contains (s, f)
 
+inductive Which | user | builtin | none
+deriving DecidableEq, Repr
+
+/-- `CallbackHandler._call`: which callable runs for the name — the registered one first (the order is generated:
+`Gen.Callbacks.registeredFirst`), else the handler's own `_on_sXXfYY`; `Env.outcome` is what *that* callable does -/
+def selects (env : Env) (s f : Nat) : Which :=
+  let u := env.user.contains (s, f)
+  let b := env.builtin.contains (s, f)
+  if Gen.Callbacks.registeredFirst then (if u then .user else if b then .builtin else .none)
+  else (if b then .builtin else if u then .user else .none)
+
 /-- `self.stream_function(s, f)` does not raise `KeyError` -/
 def catalogued (env : Env) (s f : Nat) : Bool := env.catalogue.contains (s, f)
 
